@@ -84,6 +84,10 @@ MUTANTS = [
       "        except pulp.PulpSolverError:\n            _SOLVER_BROKEN.append(True)\n"]),
     ("m_c02_twodigit", "C02", C, '                i, order = map(int, name.split("_")[1:])',
      "                i, order = int(name[2]), int(name[-1])"),
+    ("m_c02_order_last_digit", "C02", C, '                i, order = map(int, name.split("_")[1:])',
+     '                i, order = int(name.split("_")[1]), int(name.split("_")[2][-1])'),
+    ("m_c02_deep_letter_skipped", "C02", C, '"".join(p) for p in zip(string.ascii_uppercase, string.ascii_lowercase)',
+     '"".join(p) for p in zip(string.ascii_uppercase.replace("H", ""), string.ascii_lowercase.replace("h", ""))'),
     ("m_c13_twodigit_fcfs", "C13", C, "            order = next(filter(lambda i: available[i] is True, range(len(available))))\n            orders[i] = order\n\n        return self.__make_dot_bracket(regions, orders)",
      "            order = next(filter(lambda i: available[i] is True, range(len(available))))\n            orders[i] = order if i < 10 else 0\n\n        return self.__make_dot_bracket(regions, orders)"),
     ("m_c13_fcfs_10levels", "C13", C, 'available = [True for _ in range(len("([{<" + string.ascii_uppercase))]',
